@@ -203,6 +203,12 @@ def dateYear : DateSpec → Option Int
   | .fixed y _ _ => y.map (fun (n : Nat) => (n : Int))
   | .easter y => y.map (fun (n : Nat) => (n : Int))
 
+/-- `year_before_offset`: the year of the day once the day offset of a bound is taken away from it
+(`add_days_saturating(date, offset.day_offset.saturating_neg()).year()`); the search windows of a
+dated range are centred on it.  (Irreducible: the elaborator must not evaluate calendar arithmetic when
+it generates the equations of the functions below; `unfold yearBeforeOffset` opens it.) -/
+@[irreducible] def yearBeforeOffset (d : Int) (o : DateOffset) : Int := year (addDaysSat d (satNeg o.days))
+
 /-- the lazy `(y0-1..=y0+2).filter_map(end on y).map(offset).find(>= start)` of
 `single_interval_from_bounds` -/
 def firstEndFrom (e : DateSpec) (eo : DateOffset) (start : Int) : List Int → M (Option Int)
@@ -231,7 +237,7 @@ def singleInterval (s : DateSpec) (so : DateOffset) (e : DateSpec) (eo : DateOff
           let stop ← eo.apply e0
           pure (some (start, stop))
       | none => do
-        let y0 := year start
+        let y0 := yearBeforeOffset start eo
         match ← firstEndFrom e eo start [y0 - 1, y0, y0 + 1, y0 + 2] with
         | some stop => pure (some (start, stop))
         | none => pure (some (start, dateEnd))
@@ -257,11 +263,12 @@ def MonthdayRange.filter (r : MonthdayRange) (d : Day) : M Bool :=
     let inYear := (year d % 65536).toNat        -- `date.year() as u16`
     .ok ((yr.getD inYear == inYear) && wrappingContains lo hi (Cal.month d))
   | .date s so e eo => do
-    let y := year d
+    let ys := yearBeforeOffset d so
+    let ye := yearBeforeOffset d eo
     match s, (s == e : Bool) with
     | .fixed fy m dd, true =>
       -- a single day, with or without a year: only the years where it exists
-      let years := match fy with | some fy => [(fy : Int)] | none => yearsAround y 1 1
+      let years := match fy with | some fy => [(fy : Int)] | none => yearsAround ye 1 8
       match ← singleDayFind m dd so eo d years with
       | none => pure false
       | some r => pure (r.1 ≤ d && d ≤ r.2)
@@ -269,8 +276,8 @@ def MonthdayRange.filter (r : MonthdayRange) (d : Day) : M Bool :=
       match ← singleInterval s so e eo with
       | some iv => pure (iv.1 ≤ d && d ≤ iv.2)
       | none =>
-        let starts ← boundsOn s so true (yearsAround y 2 2)
-        let ends ← boundsOn e eo false (yearsAround y 2 2)
+        let starts ← boundsOn s so true (yearsAround ys 2 2)
+        let ends ← boundsOn e eo false (yearsAround ye 2 2)
         pure (isOpenFromIntervals d (intervalsFromBounds starts ends))
 
 def MonthdayRange.hint (r : MonthdayRange) (d : Day) : M (Option Day) :=
@@ -298,10 +305,11 @@ def MonthdayRange.hint (r : MonthdayRange) (d : Day) : M (Option Day) :=
         .ok (some (nextChangeFromIntervals d (intervalsFromBounds [a1, a2] [b1, b2])))
       | _, _, _, _ => .ok none
   | .date s so e eo => do
-    let y := year d
+    let ys := yearBeforeOffset d so
+    let ye := yearBeforeOffset d eo
     match s, (s == e : Bool) with
     | .fixed fy m dd, true =>
-      let years := match fy with | some fy => [(fy : Int)] | none => yearsAround y 1 10
+      let years := match fy with | some fy => [(fy : Int)] | none => yearsAround ye 1 10
       match ← singleDayFind m dd so eo d years with
       | none => pure (some dateEnd)
       | some r => pure (some (if r.1 ≤ d then (succ? r.2).getD dateEnd else r.1))
@@ -309,8 +317,8 @@ def MonthdayRange.hint (r : MonthdayRange) (d : Day) : M (Option Day) :=
       match ← singleInterval s so e eo with
       | some iv => pure (some (nextChangeFromIntervals d [iv]))
       | none =>
-        let starts ← boundsOn s so true (yearsAround y 2 10)
-        let ends ← boundsOn e eo false (yearsAround y 2 10)
+        let starts ← boundsOn s so true (yearsAround ys 2 10)
+        let ends ← boundsOn e eo false (yearsAround ye 2 10)
         pure (some (nextChangeFromIntervals d (intervalsFromBounds starts ends)))
 
 /-! ### weekday and holiday ranges -/
